@@ -3,33 +3,79 @@ import GoomVerif.Model.LwwC12
 import GoomVerif.Lemmas.C12L
 /-! Property C12 — within a builder the most recent instruction for a target wins.
 
-`C12M.run fixed` is the model of goom's builder / cache / mocker code (Model/ApiC12.lean, with fixes F7 and F14),
-`C12M.Lww.run` the last-writer-wins reference (Model/LwwC12.lean).  Histories are arbitrary lists of
-`Op` = Pkg | Reset | Var lookup | Struct(..).Method(<unknown>) | (Func / Struct.Method / Interface.Method / ExportFunc /
-ExportStruct.Method lookup followed by look | Apply k | Return | When | When..Return | Returns | Cancel); after every op every target is
-called twice. -/
+`C12M.run fixed` is the model of goom's builder / cache / mocker code (Model/ApiC12.lean), `C12M.Lww.run` the
+last-writer-wins reference (Model/LwwC12.lean).  Histories are arbitrary lists of
+`Op` = Pkg | Reset | Struct(..).Method(<unknown>) | ExportFunc("") | a lookup issued from the helper package |
+(Func / Struct.Method / Interface.Method / ExportFunc / ExportStruct.Method / Var / UnExportedVar lookup followed by
+look | Apply k (Set k) | Return | When | When..Return | Returns | Cancel) | a lookup whose handle is kept in a register |
+an instruction through a kept handle; the builder is created in any of the three packages; after every op every
+target is called twice (variables are read). -/
 namespace C12
 open C12M
 
-/-- **Refinement (all clauses at once).**  For every history, the behaviour of every target after every step in the
-    implementation model equals what the last-writer-wins reference says: a later Apply supersedes earlier stubs, a
-    later Return/When after an Apply supersedes the callback (with a fresh configuration), stub instructions given
-    through repeated lookups accumulate, Cancel and Reset restore the original, a Pkg override is used by exactly
-    the next lookup. -/
-theorem refines_lww (ops : List Op) : behRows (run fixed init ops) = Lww.run Lww.init ops :=
-  run_sim ops init Lww.init wf_init r_init
+/-- **The full statement** (all clauses at once, "through any of those handles" included): for every creating
+    package and every history the behaviour of every target after every step equals the last-writer-wins reference.
+    It does NOT hold: an instruction through a handle whose mocker was cancelled and has since been replaced in the
+    builder's cache re-installs the stale mocker, and later instructions through the live handle only mutate a When
+    that is no longer installed (Findings/C12Stale.lean `stale_handle_breaks_lww`, known finding `stale-handle`); and
+    Cancel through one method of a two-method interface variable restores the whole variable, reverting the other
+    method's configuration (`iface_cancel_one_method_history`, known finding `iface-cancel-one-method`). -/
+def RefinesAll : Prop :=
+  ∀ (p : Pkg) (ops : List Op), behRows (run fixed (initP p) ops) = Lww.run (Lww.initP p) ops
 
-/-- Every state reached by a history is well-formed and related to the reference state (used below to show that
-    the hypotheses of the state-level theorems are met by every reachable state). -/
-theorem reachable_wf (ops : List Op) : WF (exec fixed init ops) ∧ R (exec fixed init ops) (Lww.exec Lww.init ops) :=
-  exec_sim ops init Lww.init wf_init r_init
+/-- **Refinement, partial**: the full statement under the decidable hypothesis `histLive` — every instruction
+    (other than `look`) that goes through a kept handle finds that handle's mocker still the live (cached, not
+    cancelled) mocker of its target.  Then, for every creating package and every history, the behaviour of every target
+    after every step equals the reference: a later Apply supersedes earlier stubs, a later Return/When after an Apply
+    supersedes the callback (with a fresh configuration), stub instructions given through repeated lookups or kept
+    handles accumulate, Cancel and Reset restore the original, variables hold the last Set value and get their value
+    back, a Pkg override is used by exactly the next lookup and names then resolve in the package that issued it.
+    The hypothesis also excludes every op that addresses the two-method interface variable (`opI2`).
+    Missing w.r.t. `RefinesAll`: histories that use a stale handle, histories that address the two-method interface
+    variable (its model is tied to the code by the differential run only). -/
+theorem refines_lww_partial (p : Pkg) (ops : List Op) (h : histLive fixed (initP p) ops = true) :
+    behRows (run fixed (initP p) ops) = Lww.run (Lww.initP p) ops :=
+  run_sim ops _ _ (inv_initP p) h
+
+set_option maxRecDepth 16384 in
+/-- the hypothesis of `refines_lww_partial` is met by a history that keeps handles and uses them while live
+    (`h0 := Func(fA); h0.Return(1); h1 := Func(fA); h1.Apply(k2); h0.Return(3)`), and it is NOT met by the reviewer's
+    stale-handle history -/
+example : histLive fixed (initP .p0) [.keep 0 (.fn false), .on 0 (.stub (.ret 1)), .keep 1 (.fn false), .on 1 (.apply 2),
+      .on 0 (.stub (.ret 3))] = true
+    ∧ histLive fixed (initP .p0) [.keep 0 (.fn false), .on 0 (.stub (.ret 1)), .on 0 .cancel, .keep 1 (.fn false),
+      .on 1 (.stub (.ret 3)), .on 0 (.stub (.ret 2))] = false := by decide
+
+/-- **Refinement, every instruction preceded by its own lookup** (no kept handles, single-method interface variable):
+    no hypothesis on the state — `histLive` holds for every history without `on` ops and without ops on the two-method
+    interface variable. -/
+theorem refines_lww (p : Pkg) (ops : List Op) (h : ∀ op ∈ ops, isOn op = false ∧ opI2 op = false) :
+    behRows (run fixed (initP p) ops) = Lww.run (Lww.initP p) ops :=
+  refines_lww_partial p ops (histLive_of_no_on ops _ h)
+where
+  histLive_of_no_on (ops : List Op) : ∀ (s : State), (∀ op ∈ ops, isOn op = false ∧ opI2 op = false) → histLive fixed s ops = true := by
+    induction ops with
+    | nil => intro s _; rfl
+    | cons op rest ih =>
+      intro s h
+      rw [histLive_cons, Bool.and_eq_true]
+      refine ⟨?_, ih _ (fun o ho => h o (List.mem_cons_of_mem _ ho))⟩
+      have := h op (List.mem_cons_self ..)
+      cases op <;> simp_all [opLive, isOn, opI2]
+
+/-- Every state reached by a history whose kept-handle uses are live is well-formed, related to the reference state and
+    has its registers known to the reference (so the hypotheses of the state-level theorems below are met by every
+    such reachable state). -/
+theorem reachable_inv (p : Pkg) (ops : List Op) (h : histLive fixed (initP p) ops = true) :
+    Inv (exec fixed (initP p) ops) (Lww.exec (Lww.initP p) ops) :=
+  exec_sim ops _ _ (inv_initP p) h
 
 /-- **A repeated lookup continues the existing configuration.**  If the target of the lookup has a live (cached, not
     cancelled) mocker, the lookup returns that very mocker and changes neither any mocker nor what is installed. -/
-theorem lookup_continues (s : State) (hw : WF s) (hd : Handle) (mid : Nat)
+theorem lookup_continues (s : State) (hw : WF s) (hd : Handle) (hn : isI2H hd = false) (mid : Nat)
     (h : live s (tgtOf s.b.pkg hd) = some mid) :
     (lookup s hd).2 = mid ∧ (lookup s hd).1.mks = s.mks ∧ (lookup s hd).1.inst = s.inst := by
-  obtain ⟨_, _, hinst, hcase⟩ := lookup_ok s hd hw
+  obtain ⟨_, _, hinst, _, _, hcase⟩ := lookup_ok s hd hw hn
   rcases hcase with ⟨hl, hm, _⟩ | ⟨hl, _⟩
   · rw [h] at hl; exact ⟨(Option.some.inj hl).symm, hm, hinst⟩
   · rw [h] at hl; cases hl
@@ -43,12 +89,12 @@ example : live (exec fixed init [.h (.fn false) (.stub (.ret 1))]) (tgtOf .p0 (.
 /-- **…unless it was cancelled.**  If the target has no live mocker (never looked up, or cancelled by Cancel/Reset),
     the lookup yields a brand-new mocker — no When, not cancelled, nothing installed through it — which becomes the
     live one; what is installed does not change. -/
-theorem lookup_after_cancel (s : State) (hw : WF s) (hd : Handle)
+theorem lookup_after_cancel (s : State) (hw : WF s) (hd : Handle) (hn : isI2H hd = false)
     (h : live s (tgtOf s.b.pkg hd) = none) :
     (lookup s hd).2 = s.next ∧ ((lookup s hd).1.mks (lookup s hd).2).when = none ∧
     ((lookup s hd).1.mks (lookup s hd).2).guard = false ∧
     live (lookup s hd).1 (tgtOf s.b.pkg hd) = some (lookup s hd).2 ∧ (lookup s hd).1.inst = s.inst := by
-  obtain ⟨_, _, hinst, hcase⟩ := lookup_ok s hd hw
+  obtain ⟨_, _, hinst, _, _, hcase⟩ := lookup_ok s hd hw hn
   rcases hcase with ⟨hl, _⟩ | ⟨_, hmid, _, hwhen, hcan, hguard, hslot⟩
   · rw [h] at hl; cases hl
   · exact ⟨hmid, hwhen, hguard, live_some.mpr ⟨by rw [hslot, if_pos rfl], hcan⟩, hinst⟩
@@ -76,54 +122,98 @@ set_option maxRecDepth 8192 in
 example : (exec fixed init [.h (.st true) (.stub (.whenRet 1 5)), .h .im (.apply 2)]).inst (.st true) = .via 0
     ∧ (exec fixed init [.h (.st true) (.stub (.whenRet 1 5)), .h .im (.apply 2)]).inst .im = .cb 2 := by decide
 
-/-- the ops that perform a lookup -/
-def isLookup : Op → Bool
-  | .pkg _ => false
-  | .reset => false
-  | _ => true
+/-- the package a lookup op is issued from (`none`: the op performs no lookup) -/
+def callerOf : Op → Option Pkg
+  | .h _ _ => some .p0
+  | .keep _ _ => some .p0
+  | .stBad => some .p0
+  | .qlook => some .pq
+  | _ => none
 
 /-- **A Pkg override applies to the next lookup only.**  Whatever package was set, after any op that performs a
-    lookup (Func, Struct, Interface, ExportFunc, ExportStruct — also when the instruction that follows panics — and Var) the
-    builder's package is the caller's again, so the lookup after it resolves names in the caller's package. -/
-theorem pkg_one_shot (s : State) (p : Pkg) (op : Op) (h : isLookup op = true) :
-    (step fixed (step fixed s (.pkg p)).1 op).1.b.pkg = .p0 := by
+    lookup (Func, Struct, Interface, ExportFunc, ExportStruct, Var, UnExportedVar — directly, kept in a register, or
+    with a following instruction that panics) the builder's package is the package that ISSUED the lookup: the test
+    package for its own lookups, the helper package for a lookup made there. -/
+theorem pkg_one_shot (s : State) (p : Pkg) (op : Op) (c : Pkg) (h : callerOf op = some c) :
+    (step fixed (step fixed s (.pkg p)).1 op).1.b.pkg = c := by
   cases op with
-  | pkg q => simp [isLookup] at h
-  | reset => simp [isLookup] at h
-  | var => simp only [step, varLookup, fixed, if_true]; rfl
-  | stBad => rfl
-  | h hd ins => rw [step_h_fst, instr_pkg]; exact lookup_resets_pkg _ hd
+  | pkg q => simp [callerOf] at h
+  | reset => simp [callerOf] at h
+  | xfEmpty => simp [callerOf] at h
+  | on r ins => simp [callerOf] at h
+  | stBad => simp only [callerOf, Option.some.injEq] at h; subst h; rfl
+  | qlook => simp only [callerOf, Option.some.injEq] at h; subst h; rfl
+  | h hd ins => simp only [callerOf, Option.some.injEq] at h; subst h; rw [step_h_fst, instr_pkg]; exact lookup_resets_pkg _ hd
+  | keep r hd => simp only [callerOf, Option.some.injEq] at h; subst h; simp only [step]; exact lookup_resets_pkg _ hd
 where
   lookup_resets_pkg (s : State) (hd : Handle) : (lookup s hd).1.b.pkg = .p0 := by
     have hi : (ifaceLookup s).1.b.pkg = .p0 := by
       unfold ifaceLookup; split
       · split <;> rfl
       · rfl
+    have hi' : (iface2Lookup s).1.b.pkg = .p0 := by
+      unfold iface2Lookup; split
+      · split <;> rfl
+      · rfl
     cases hd <;> simp only [lookup] <;> (repeat' split) <;> simp_all [reset2CurPkg, setPkg, alloc, structLookup, exportStructLookup]
 
+/-- …while an op that performs no lookup — the rejected `ExportFunc("")`, an instruction through a kept handle — leaves
+    the override pending. -/
+theorem pkg_pending (s : State) (p : Pkg) (op : Op) (h : op = .xfEmpty ∨ ∃ r ins, op = .on r ins) :
+    (step fixed (step fixed s (.pkg p)).1 op).1.b.pkg = p := by
+  rcases h with rfl | ⟨r, ins, rfl⟩
+  · rfl
+  · cases hreg : (step fixed s (.pkg p)).1.regs r with
+    | none => simp only [step] at hreg ⊢; simp only [hreg]; rfl
+    | some mid => rw [step_on_fst _ _ _ _ _ hreg, instr_pkg]; rfl
+
 /-- …and the override is really used by that next lookup, for every pair of lookup kinds (Func, Struct.Method,
-    Interface.Method, ExportFunc, ExportStruct.Method), whether the lookups hit the cache or not: in every reachable
-    state, after `Pkg(p)` the lookup `hd1` yields the mocker of `hd1`'s target in package `p`, and the lookup `hd2`
-    after it the mocker of `hd2`'s target in the caller's package. -/
-theorem pkg_used_once (s : State) (a : Lww) (hw : WF s) (hr : R s a) (p : Pkg) (hd1 hd2 : Handle) (ins : Instr) :
+    Interface.Method, ExportFunc, ExportStruct.Method, Var, UnExportedVar), whether the lookups hit the cache or not: in
+    every reachable state, after `Pkg(p)` the lookup `hd1` yields the mocker of `hd1`'s target in package `p`, and the
+    lookup `hd2` after it the mocker of `hd2`'s target in the caller's package. -/
+theorem pkg_used_once (s : State) (a : Lww) (hw : WF s) (hr : R s a) (p : Pkg) (hd1 hd2 : Handle) (ins : Instr)
+    (hn1 : isI2H hd1 = false) (hn2 : isI2H hd2 = false) :
     let s1 := (step fixed s (.pkg p)).1
     let s2 := (step fixed s1 (.h hd1 ins)).1
     ((lookup s1 hd1).1.mks (lookup s1 hd1).2).tgt = tgtOf p hd1 ∧
     ((lookup s2 hd2).1.mks (lookup s2 hd2).2).tgt = tgtOf .p0 hd2 := by
   intro s1 s2
-  obtain ⟨hw1, hr1⟩ := step_sim hw hr (.pkg p)
-  obtain ⟨hw2, _⟩ := step_sim hw1 hr1 (.h hd1 ins)
-  have h1 := lookup_ok s1 hd1 hw1
-  have h2 := lookup_ok s2 hd2 hw2
-  have hp2 : s2.b.pkg = .p0 := pkg_one_shot s p (.h hd1 ins) rfl
+  obtain ⟨hw1, hr1⟩ := step_sim hw hr (.pkg p) rfl
+  obtain ⟨hw2, _⟩ := step_sim hw1 hr1 (.h hd1 ins) rfl hn1
+  have h1 := lookup_ok s1 hd1 hw1 hn1
+  have h2 := lookup_ok s2 hd2 hw2 hn2
+  have hp2 : s2.b.pkg = .p0 := pkg_one_shot s p (.h hd1 ins) .p0 rfl
   refine ⟨tgt_of_ok h1, ?_⟩
   have := tgt_of_ok h2
   rw [hp2] at this; exact this
 where
   tgt_of_ok {s : State} {t : Tgt} {s' : State} {mid : Nat} (h : LookupOk s t s' mid) : (s'.mks mid).tgt = t := by
-    obtain ⟨hw', _, _, hcase⟩ := h
+    obtain ⟨hw', _, _, _, _, hcase⟩ := h
     rcases hcase with ⟨hl, hm, hs⟩ | ⟨_, _, _, _, _, _, hs⟩
     · exact hw'.slot_tgt t mid (by rw [hs]; exact (live_some.mp hl).1)
     · exact hw'.slot_tgt t mid (by rw [hs, if_pos rfl])
+
+/-- **Variables** ("…or variable continues the existing configuration"): in every reachable state, after
+    `Var(&v).Set(k)` / `UnExportedVar(path).Set(k)` — first lookup or repeated — the variable holds k, whatever was
+    set through earlier lookups; after Cancel through a lookup, or Reset, it holds its original value again. -/
+theorem var_last_set_wins (s : State) (a : Lww) (hw : WF s) (hr : R s a) (i : Bool) (k x : Nat) :
+    (call (step fixed s (.h (.vr i) (.apply k))).1 (.vr i) x).2 = .k k ∧
+    (call (step fixed s (.h (.vr i) .cancel)).1 (.vr i) x).2 = .o ∧
+    (call (step fixed s .reset).1 (.vr i) x).2 = .o := by
+  refine ⟨?_, ?_, ?_⟩
+  · obtain ⟨hw1, hr1⟩ := step_sim hw hr (.h (.vr i) (.apply k)) rfl
+    rw [(call_sim hw1 hr1 (.vr i) x).1]
+    simp [Lww.step, Lww.onTgt, Lww.rejected, isPhantom, tgtOf, Lww.instr, Lww.call]
+  · obtain ⟨hw1, hr1⟩ := step_sim hw hr (.h (.vr i) .cancel) rfl
+    rw [(call_sim hw1 hr1 (.vr i) x).1]
+    simp [Lww.step, Lww.onTgt, Lww.rejected, tgtOf, Lww.instr, Lww.call]
+  · obtain ⟨hw1, hr1⟩ := step_sim hw hr .reset rfl
+    rw [(call_sim hw1 hr1 (.vr i) x).1]
+    simp [Lww.step, Lww.call]
+
+set_option maxRecDepth 8192 in
+/-- a reachable state in which the variable already holds a mock value set through an earlier lookup -/
+example : (exec fixed init [.h (.vr false) (.apply 1), .h (.vr true) (.apply 2)]).inst (.vr false) = .cb 1
+    ∧ live (exec fixed init [.h (.vr false) (.apply 1), .h (.vr true) (.apply 2)]) (.vr true) = some 1 := by decide
 
 end C12
